@@ -274,3 +274,8 @@ func Execs() []string { return nil }
 func Share(tag string, obj any) {}
 func ShareGlobals()             {}
 func SharedWrites() []string    { return nil }
+
+// ExitCode runs f and returns the process exit status requested inside it
+// (engine only: os.Exit and log.Fatal end f there); natively harnesses run the
+// real binary instead.
+func ExitCode(f func()) int { f(); return -1 }
